@@ -217,6 +217,12 @@ func leak(c *vk.Ctx, r *rand.Rand, pA *sem.Prepared, S, C []*openfgav1.TupleKey,
 			c.Count("leak_history_requests", 1)
 			c.Case(fmt.Sprintf("leak|%s|set%d|%s", cfg, k, sem.ShapeOf(pA, rq, want)), want != ref.F)
 			v := sem.JudgeCheck(want, rcs[k].AnyUnevaluable(), o)
+			if o.Code == "Canceled" || o.Code == "DeadlineExceeded" || o.Code == "openfga_2058" || o.Code == "openfga_2057" {
+				// nobody cancelled this request: a cancellation leaking between requests through shared
+				// iterators is C09's subject, a deadline under load C20's
+				c.Count("requests_cancelled_or_timed_out_without_client_cancel(not_judged_here)", 1)
+				continue
+			}
 			if v != sem.Agree && v != sem.NotJudged {
 				f := sem.ClassifyCheck("C04", rcs[k], rq, want, o, mode)
 				if f == "" && strings.Contains(cfg, "v2") {
@@ -340,6 +346,25 @@ func compareLists(c *vk.Ctx, api string, pA, pB *sem.Prepared, rcX *ref.Case, C 
 					f = ""
 				}
 			}
+		}
+	}
+	if f == "" && strings.HasPrefix(api, "ListObjects/optimized") && want != nil {
+		// the weighted reverse expansion omits permitted objects nondeterministically (listed under C05):
+		// two answers that are both sound subsets of the reference set differ by such omissions only
+		sound := true
+		ws := map[string]bool{}
+		for _, o := range want {
+			ws[o] = true
+		}
+		for _, side := range [][]string{a, b} {
+			for _, o := range side {
+				if !ws[o] {
+					sound = false
+				}
+			}
+		}
+		if sound {
+			f = "C04-" + sem.FindingOptimizedOmits
 		}
 	}
 	c.Violation(f, "list|"+api+"|"+ref.Shape(pB.Ref.Rewrite(typeOf(obj), rel)),
